@@ -193,6 +193,14 @@ def run(ctx):
     ctx.cov["exhaustive"] = False
     ctx.cov["exhaustive_scope"] = ("complete for the bounded grammar stated in the assumptions (every value / concatenation / "
                                    "chunking of it was enumerated), not for all RESP values")
+    # long concatenations on ONE decoder (a connection's decoder is long lived): hundreds of messages of every shape,
+    # arrays beyond any pre-allocation, nesting up to the documented limit
+    lfile = os.path.join(ctx.work, "longlived.ndjson")
+    ctx.harness(["c10-longlived", "-out", lfile], timeout=600)
+    for r in kit.read_ndjson(lfile):
+        ctx.case(key=["longlived", r["case"]], nontrivial=r["n"] > 1)
+        if not r["ok"]:
+            ctx.violation("decode/long-concatenation/" + r["case"].split(" ")[0], "%s: %s" % (r["case"], r["why"]), r)
     ctx.cov["rule"] = ("cases: one per TLC vector (VAL distinct by value, non-trivial = array, structural byte or run in the payload, "
                        ">= 9 digit integer; CAT by message indices, non-trivial = >= 2 messages; RD by buffer, stream, chunks, "
                        "non-trivial = reaches buffer-full / refill / bypass / compaction; INT by text, non-trivial = not a short plain "
